@@ -639,6 +639,8 @@ class Node:
                 # Every node is inserted at the same index, so add the last one first.
                 # (With `before=<node>` each node lands directly before that node, i.e.
                 # behind the previous one.)
+                # An index behind the last child means 'append' (as in `list.insert`)
+                before = min(before, len(self._children or ()))
                 topnodes.reverse()
             n = None  # source tree may be empty
             for n in topnodes:
@@ -690,7 +692,7 @@ class Node:
 
         children = self._children
         if children is None:
-            assert before in (None, True, int, False)
+            # (an index behind the last child means 'append', as in `list.insert`)
             self._children = [node]
         elif isinstance(before, int):
             children.insert(before, node)
@@ -834,7 +836,7 @@ class Node:
 
         target_siblings = new_parent._children
         if target_siblings is None:
-            assert before in (None, True, False, 0), before
+            # (an index behind the last child means 'append', as in `list.insert`)
             new_parent._children = [self]  # type: ignore
         elif isinstance(before, Node):
             assert before._parent is new_parent, before
